@@ -165,6 +165,7 @@ type runner struct {
 	vals  []pdf.Object    // values Put earlier (to write the same value again)
 	inStream bool
 	final    bool
+	safe     bool // a planned program: no operation that may legitimately be refused (it would end the program before the file exists)
 }
 
 func (x *runner) tok(f string, a ...any) { x.res.Tokens = append(x.res.Tokens, fmt.Sprintf(f, a...)) }
@@ -373,7 +374,7 @@ func (x *runner) pickRef() (pdf.Reference, bool) {
 		ref := x.pend[i]
 		x.pend = append(x.pend[:i], x.pend[i+1:]...)
 		return ref, true
-	case k == 3:
+	case k == 3 && !x.safe:
 		// any small number, in use or not - also 0, which no object may have
 		ref := pdf.NewReference(uint32(x.r.IntN(61)), BoundaryGens[x.r.IntN(len(BoundaryGens))])
 		if x.r.IntN(6) == 0 {
@@ -541,7 +542,7 @@ func (x *runner) streamWith(plan *Plan, sp streamSpec) bool {
 	} else if len(fs) == 0 && !x.cfg.Encrypt && x.r.IntN(8) == 0 {
 		// a caller-supplied /Length
 		l := len(body)
-		if x.r.IntN(4) == 0 {
+		if x.r.IntN(4) == 0 && !x.safe {
 			l++
 			x.res.Provoked = true
 		}
@@ -797,7 +798,7 @@ func (x *runner) writeCompressed(refs []pdf.Reference, objs []pdf.Object) bool {
 // Run generates a program op by op and runs it on the real Writer.
 func Run(r *rand.Rand, cfg Config, plan Plan) *Result {
 	res := &Result{Cfg: cfg, ErrIdx: -1, Want: map[pdf.Reference]*Want{}}
-	x := &runner{r: r, cfg: cfg, res: res}
+	x := &runner{r: r, cfg: cfg, res: res, safe: plan.MaxOps != 0 && !plan.Invalid}
 	opt := &pdf.WriterOptions{HumanReadable: cfg.HR}
 	if cfg.Encrypt {
 		opt.UserPassword = cfg.UserPw
